@@ -258,6 +258,29 @@ def run_item(item):
         res["samples"] = [{"loader": "DeepONetDataLoader", "layout": layout, "Nb": nb, "Nt": nt}]
         return res
 
+    # ---- data with MORE axes than (datum, column): every datum is an (M, d) block (operator-learning layout); batches keep the
+    #      blocks whole and paired
+    for N, M, d, bs in ((4, 5, 2, 3), (3, 4, 1, 2), (5, 3, 3, 5)):
+        cfg = "blocks N=%d M=%d d=%d bs=%d" % (N, M, d, bs)
+        res["states"].append(cfg)
+        base = torch.arange(N * M * d, dtype=torch.float32).reshape(N, M, d)
+        data = (Points(base.clone(), Space({"a": d})), Points(base.clone() + 5000.0, Space({"b": d})))
+        try:
+            ld = PointsDataLoader(data, batch_size=bs)
+            batches = [b for b in ld]
+        except Exception as e:
+            viol("C16|points|error|%s|blocks" % type(e).__name__, "%s raised %s: %s" % (cfg, type(e).__name__, str(e)[:100]))
+            continue
+        res["evals"] += 1
+        res["transitions"] += len(batches)
+        got_a = torch.cat([b[0].as_tensor for b in batches], 0) if all(b[0].as_tensor.dim() == 3 for b in batches) else None
+        got_b = torch.cat([b[1].as_tensor for b in batches], 0) if got_a is not None and all(b[1].as_tensor.dim() == 3 for b in batches) else None
+        if got_a is None or got_b is None or got_a.shape != base.shape or not torch.equal(got_a, base) or not torch.equal(got_b, base + 5000.0) or \
+                any(len(b[0].as_tensor) > bs for b in batches):
+            viol("C16|points|blocks", "%s: the batches have shapes %s and do not reproduce the data blocks in order" % (cfg, [tuple(b[0].as_tensor.shape) for b in batches]))
+        else:
+            res["outcomes"].append(cfg)
+
     # ---- the user's containers: a LIST of Points handed to a shuffling loader is left as it was, and a second loader built
     #      from the same list afterwards still delivers the user's rows in the user's order
     for N in (3, 5):
